@@ -626,3 +626,226 @@ def evaluate(case):  # noqa: F811
 
 def export_case(case):  # noqa: F811
     return case if case.get("form") == "steps" else _pool_export(case)
+
+
+# ---------------------------------------------------------------------------------- the same histories as a state machine
+# hypothesis.stateful drives the rewrite histories step by step: the model is the variant currently stored in every slot plus
+# the set of slots some earlier operation has read; preconditions steer towards rewriting a file that was read and asking
+# again.  Every example runs its operations in a worker process of its own (forked when the machine is created, fed through
+# pipes), the baseline of a match step is computed in yet another process on a private copy of the model's files.  The steps
+# are recorded in the case format of eval_steps, so a failing history is an ordinary replay file.
+
+
+class _Worker:
+    """A child process that executes write / match commands in order (one per machine instance = per example)."""
+
+    def __init__(self, directory):
+        self.dir = directory
+        c2p_r, c2p_w = os.pipe()
+        p2c_r, p2c_w = os.pipe()
+        self.pid = os.fork()
+        if self.pid == 0:
+            os.close(c2p_r)
+            os.close(p2c_w)
+            inp, out = os.fdopen(p2c_r, "rb"), os.fdopen(c2p_w, "wb")
+            try:
+                while True:
+                    try:
+                        cmd = pickle.load(inp)
+                    except EOFError:
+                        break
+                    if cmd[0] == "write":
+                        _write_slot(self.dir, cmd[1], cmd[2])
+                        res = "written"
+                    else:
+                        try:
+                            res = _run_step_match(self.dir, cmd[1])
+                        except BaseException as exc:  # noqa: BLE001
+                            res = ["harness-error", repr(exc)]
+                    pickle.dump(res, out)
+                    out.flush()
+            finally:
+                os._exit(0)
+        os.close(p2c_r)
+        os.close(c2p_w)
+        self.out, self.inp = os.fdopen(p2c_w, "wb"), os.fdopen(c2p_r, "rb")
+
+    def call(self, *cmd):
+        pickle.dump(cmd, self.out)
+        self.out.flush()
+        return pickle.load(self.inp)
+
+    def close(self):
+        try:
+            self.out.close()
+            self.inp.close()
+        finally:
+            try:
+                os.waitpid(self.pid, 0)
+            except ChildProcessError:
+                pass
+
+
+class HistoryFailure(AssertionError):
+    def __init__(self, case, deviation):
+        super().__init__(deviation.get("kind"))
+        self.case, self.deviation = case, deviation
+
+
+def make_machine():
+    from hypothesis.stateful import RuleBasedStateMachine, initialize, precondition, rule
+
+    v3 = st.lists(st.integers(0, 11), min_size=3, max_size=3)
+    mode_st = st.tuples(st.sampled_from(["bool", "list"]), st.sampled_from(["first", "all"]), st.booleans())
+    libs_st = st.sampled_from([[], ["m0"], ["m1"], ["m0", "m1"], ["m1", "m0"]])
+
+    class RewriteHistories(RuleBasedStateMachine):
+        stats = {"examples": 0, "steps": 0, "matches": 0, "reread_after_rewrite": 0}
+
+        def __init__(self):
+            super().__init__()
+            sc = jasm_io.scratch()
+            RewriteHistories.stats["examples"] += 1
+            self.root = os.path.join(sc.dir, "c14_machine_%d_%d" % (os.getpid(), RewriteHistories.stats["examples"]))
+            shutil.rmtree(self.root, ignore_errors=True)
+            os.makedirs(os.path.join(self.root, "hist"))
+            self.worker = _Worker(os.path.join(self.root, "hist"))
+            self.model = {}      # slot -> variant now on disk
+            self.init = {}
+            self.steps = []
+            self.read = set()    # slots some earlier operation has read
+            self.stale = set()   # ... and that have been rewritten since
+            self.last = None
+            self.nbase = 0
+
+        @initialize(variants=st.lists(v3, min_size=len(S_SLOTS), max_size=len(S_SLOTS)))
+        def write_everything(self, variants):
+            for s_, v in zip(S_SLOTS, variants):
+                self.model[s_] = list(v)
+                self.init[s_] = list(v)
+                self.worker.call("write", s_, list(v))
+
+        def _write(self, slot, v):
+            self.model[slot] = list(v)
+            self.steps.append({"op": "write", "slot": slot, "v": list(v)})
+            self.worker.call("write", slot, list(v))
+            if slot in self.read:
+                self.stale.add(slot)
+            RewriteHistories.stats["steps"] += 1
+
+        @rule(slot=st.sampled_from(S_SLOTS), v=v3)
+        def rewrite_any(self, slot, v):
+            self._write(slot, v)
+
+        @precondition(lambda self: bool(self.read))
+        @rule(data=st.data(), v=v3)
+        def rewrite_a_file_that_was_read(self, data, v):
+            self._write(data.draw(st.sampled_from(sorted(self.read))), v)
+
+        def _match(self, stp):
+            self.steps.append(dict(stp))
+            k = len(self.steps) - 1
+            RewriteHistories.stats["steps"] += 1
+            RewriteHistories.stats["matches"] += 1
+            files = {stp["rule"], stp["input"], *stp["libs"]}
+            if files & self.stale:
+                RewriteHistories.stats["reread_after_rewrite"] += 1
+            got = self.worker.call("match", stp)
+            d = os.path.join(self.root, "base_%d" % self.nbase)
+            self.nbase += 1
+            os.makedirs(d)
+            for s_, v in self.model.items():
+                _write_slot(d, s_, v)
+            want = _forked(lambda: _run_step_match(d, stp))
+            shutil.rmtree(d, ignore_errors=True)
+            self.read |= files
+            self.stale -= files
+            self.last = stp
+            for r_ in (got, want):
+                if isinstance(r_, list) and r_ and r_[0] == "harness-error":
+                    raise RuntimeError(r_[1])
+            if "inconclusive" in (got[0], want[0]):
+                return
+            case = {"form": "steps", "init": dict(self.init), "steps": list(self.steps)}
+            if got[0] == "exc" and got[1] == "SecondCallOnSameInstanceDiffers":
+                raise HistoryFailure(case, {"kind": "repeat-on-same-instance-differs", "step": k, "operation": stp, "found_by": "state machine"})
+            if got != want:
+                raise HistoryFailure(case, {"kind": "history-dependent-result", "step": k, "operation": stp, "expected_as_first_in_fresh_process": _short(want),
+                                            "observed": _short(got), "found_by": "state machine"})
+
+        @rule(rule_slot=st.sampled_from(S_RULES), inp=st.sampled_from(S_LISTINGS + ["b0"]), libs=libs_st, mode=mode_st)
+        def match(self, rule_slot, inp, libs, mode):
+            self._match({"op": "match", "rule": rule_slot, "input": inp, "libs": list(libs), "mode": list(mode)})
+
+        @precondition(lambda self: bool(self.stale) and self.last is not None)
+        @rule(mode=mode_st)
+        def ask_again_about_a_rewritten_file(self, mode):
+            # the previous question once more, now that one of its files has other contents
+            stp = dict(self.last, mode=list(mode))
+            if not ({stp["rule"], stp["input"], *stp["libs"]} & self.stale):
+                slot = sorted(self.stale)[0]
+                if slot in S_RULES:
+                    stp["rule"] = slot
+                elif slot in S_LIBS:
+                    stp["libs"] = [slot]
+                else:
+                    stp["input"] = slot
+            self._match(stp)
+
+        def teardown(self):
+            self.worker.close()
+            shutil.rmtree(self.root, ignore_errors=True)
+
+    return RewriteHistories
+
+
+def _machine_shard(args):
+    """One shard of the state-machine campaign, in a process of its own."""
+    tier, seed, shard, examples, steps = args
+    import hypothesis
+    from hypothesis import HealthCheck, Phase, settings
+    from hypothesis.stateful import run_state_machine_as_test
+
+    Machine = make_machine()
+    out = {"violation": None, "error": None}
+    try:
+        run_state_machine_as_test(
+            hypothesis.seed(seed * 1000003 + shard * 7919 + 41)(Machine),
+            settings=settings(max_examples=examples, stateful_step_count=steps, database=None, deadline=None, derandomize=False, report_multiple_bugs=False,
+                              print_blob=False, suppress_health_check=list(HealthCheck), phases=[Phase.generate, Phase.shrink]),
+        )
+    except HistoryFailure as f:
+        out["violation"] = {"case": f.case, "deviation": f.deviation}
+    except BaseException as exc:  # noqa: BLE001
+        import traceback
+
+        chain = exc
+        while chain is not None and not isinstance(chain, HistoryFailure):
+            chain = chain.__cause__ or chain.__context__
+        if isinstance(chain, HistoryFailure):
+            out["violation"] = {"case": chain.case, "deviation": chain.deviation}
+        else:
+            out["error"] = "".join(traceback.format_exception(type(exc), exc, exc.__traceback__))[-3000:]
+    out["stats"] = dict(Machine.stats)
+    return out
+
+
+_pool_extra = extra
+
+
+def extra(tier, seed, rep):  # noqa: F811
+    _pool_extra(tier, seed, rep)
+    examples, steps = (6, 30) if tier == "quick" else (120, 60)
+    with mp.get_context("fork").Pool(16, maxtasksperchild=1) as pool:
+        results = pool.map(_machine_shard, [(tier, seed, k, examples, steps) for k in range(16)], chunksize=1)
+    tot = {"examples": 0, "steps": 0, "matches": 0, "reread_after_rewrite": 0}
+    for r_ in results:
+        for k_ in tot:
+            tot[k_] += r_["stats"].get(k_, 0)
+        if r_["violation"]:
+            rep.violations.append((r_["violation"]["case"], r_["violation"]["deviation"]))
+        if r_["error"]:
+            rep.errors.append("state machine shard: " + r_["error"])
+    rep.evaluations += tot["examples"]
+    rep.subcases += tot["matches"]
+    rep.extra["state_machine"] = dict(tot, engine="hypothesis.stateful RuleBasedStateMachine, 16 shards", max_steps=steps)
